@@ -8,6 +8,7 @@ import (
 	"os"
 	"path/filepath"
 	"regexp"
+	"sort"
 	"strings"
 	"time"
 )
@@ -73,7 +74,9 @@ func (s *Sim) installC17() {
 		ok, _ := s.staticEligible(name, v.Size)
 		return ok && !s.disabledNow()
 	}
-	seen := map[string]bool{} // inc|name|size|mtime announced by a scan of an incarnation
+	seen := map[string]bool{}  // inc|name|size|mtime announced by a scan of an incarnation
+	seenV := map[string]bool{} // name|size|mtime returned by any scan
+	nScans := 0
 	s.hookScan = func(n *SendNode, sc *scanObs) {
 		for i, name := range sc.Names {
 			if ok, why := s.staticEligible(name, sc.Sizes[i]); !ok {
@@ -94,8 +97,56 @@ func (s *Sim) installC17() {
 				}
 			}
 			seen[k] = true
+			seenV[fmt.Sprintf("%s|%d|%d", name, sc.Sizes[i], sc.Times[i])] = true
 		}
+		nScans++
 	}
+	// "if": an eligible file is picked up. Judged at the end for versions that
+	// had been eligible, untouched, for many scan periods.
+	s.finalHooks = append(s.finalHooks, func() {
+		end := time.Since(s.epoch)
+		period := s.sc.Send.ScanDelay
+		if period < time.Second {
+			period = time.Second
+		}
+		if nScans < 3 || s.disabledNow() || len(s.sendAll) != 1 || s.ob.stopStep >= 0 {
+			return
+		}
+		var lastEnv time.Duration
+		for _, a := range s.sc.Env {
+			if a.At > lastEnv {
+				lastEnv = a.At
+			}
+		}
+		names := make([]string, 0, len(s.ob.versions))
+		for name := range s.ob.versions {
+			names = append(names, name)
+		}
+		sort.Strings(names)
+		for _, name := range names {
+			vs := s.ob.versions[name]
+			v := vs[len(vs)-1]
+			if v.GoneStep >= 0 {
+				continue
+			}
+			if fi, err := os.Stat(s.world.path(name)); err != nil || fi.Size() != v.Size || !fi.ModTime().Equal(v.Mtime) {
+				continue // not (or no longer) on disk as recorded
+			}
+			if ok, _ := s.staticEligible(name, v.Size); !ok {
+				continue
+			}
+			since := v.FakeAt + s.sc.Send.MinAge // at the latest (a link is as old as the link, a file as its mtime)
+			if since < lastEnv {
+				since = lastEnv
+			}
+			if end-since < 5*period+10*time.Minute {
+				continue
+			}
+			if !seenV[fmt.Sprintf("%s|%d|%d", name, v.Size, v.Mtime.UnixNano())] {
+				s.violate("C17", "eligible-file-never-scanned", "%s (size %d) has been eligible since %s at the latest, %d scans have run since the start, none returned it", name, v.Size, since.Round(time.Second), nScans)
+			}
+		}
+	})
 	prevTx := s.hookTxBegin
 	s.hookTxBegin = func(n *SendNode, t *txObs) {
 		if prevTx != nil {
@@ -188,10 +239,20 @@ func init() {
 			}
 			sc.Files = append(sc.Files, f)
 		}
+		// symbolic links to regular files (absolute and relative targets). The
+		// link itself is created "now"; sts applies the minimum age to the link
+		// and announces the target's time, so both are kept well apart from it.
+		if g.pct(25) {
+			for _, nm := range []string{"lnk.01.dat", "d1/lnk.02.dat"} {
+				if g.pct(60) {
+					sc.Files = append(sc.Files, FileSpec{Name: nm, Size: int64(1 + g.n(3000)), Seed: g.u64(), Age: int64(600 + g.n(3000)), Link: []string{"abs", "rel"}[g.n(2)]})
+				}
+			}
+		}
 		// ages on both sides of the minimum age
 		ma := int64(sc.Send.MinAge / time.Second)
 		for i := range sc.Files {
-			if g.pct(35) {
+			if g.pct(35) && sc.Files[i].Link == "" {
 				sc.Files[i].Age = ma + int64(g.pick(-3, -1, 0, 1, 3, 30))
 				if sc.Files[i].Age < 0 {
 					sc.Files[i].Age = 0
